@@ -187,8 +187,9 @@ def diagnose_stuck(run) -> str:  # noqa: ANN001
         elif s.status.name == "SUSPENDED":
             shapes.append("suspended-stage")
     if not shapes:
-        sts = sorted({s.status.name for s in wf.stages if s.parent_stage_id is None})
-        shapes.append("no-active-stage:" + "+".join(sts))
+        sts = {s.status.name for s in wf.stages if s.parent_stage_id is None}
+        shapes.append("no-active-stage:" + ("with-halted-stage" if sts & HALT else
+                                            "with-not-started-stage" if "NOT_STARTED" in sts else "all-finished"))
     return "|".join(sorted(set(shapes)))
 
 
